@@ -52,7 +52,7 @@ func (w *XMLWriter) Attr(key, value string) *XMLWriter {
 		w.b.WriteString(" ")
 		w.b.WriteString(key)
 		w.b.WriteString("=\"")
-		w.writeEsc(value)
+		w.writeEscAttr(value)
 		w.b.WriteString("\"")
 	} else {
 		log.Print("tag is not open")
@@ -109,8 +109,27 @@ func (w *XMLWriter) writeEsc(s string) {
 			w.b.WriteString("&gt;")
 		case '&':
 			w.b.WriteString("&amp;")
+		case '\r':
+			// a carriage return is removed or replaced by the normalization of line ends
+			w.b.WriteString("&#xD;")
 		default:
 			w.b.WriteRune(r)
+		}
+	}
+}
+
+// writeEscAttr escapes an attribute value. In addition to writeEsc also tabs
+// and line feeds are escaped because they are replaced by blanks by the
+// attribute value normalization.
+func (w *XMLWriter) writeEscAttr(s string) {
+	for _, r := range s {
+		switch r {
+		case '\t':
+			w.b.WriteString("&#x9;")
+		case '\n':
+			w.b.WriteString("&#xA;")
+		default:
+			w.writeEsc(string(r))
 		}
 	}
 }
